@@ -1409,6 +1409,10 @@ def rule_mount_scope(ctx, facts, rule):
     producers = [b for b in fn.calls_re(r"global_collector::amend_(local_)?span$", cleanup=False)]
     for m in mounts:
         t = fn.term(m)
+        if fn.on_cycle(m):
+            ctx.fail(rule, fn.path, fn.loc(m), "attachments are mounted once, after every collection of the call has produced its records",
+                     "mount_danglings runs inside the loop over the collections: an attachment that is read after its target's record "
+                     "(another thread's queue, same cycle) meets a slice that no longer contains that record", extra="mount-once")
         src = prov.of_operand(fn, t["args"][0])
         batch = [o for o in src if o.kind == "param"]
         if not batch:
